@@ -1717,12 +1717,12 @@ def check_C14(tier):
     for tname in ("plain", "deep"):
         nodes, index = W.tree(W.TREES[tname])
         for base in ("root", "root/a"):
-            for spelling in ("rel", "reldot"):
+            for spelling in ("rel", "reldot", "empty"):
                 for g in (None, "**", "a/**", "b/**", "*/*", "a/b/*", "**/*.txt" if tname == "plain" else "**/g"):
                     h = {"nodes": nodes, "follow": False, "min": -1, "max": -1, "rooted": False, "walk_from": index[base],
                          "base": spelling, "layers": [], "tree": tname, "origin": "library",
                          "desc": "%s from %s in tree %s (base spelled %s)" % ("path walk" if g is None else "glob %r" % g, base, tname,
-                                                                             "relative to the current directory" if spelling == "rel" else "with a leading ./")}
+                                                                             {"rel": "relative to the current directory", "reldot": "with a leading ./", "empty": "as the empty path, being the current directory"}[spelling])}
                     if g is not None:
                         h["glob"] = C.cps(g)
                     extra.append(h)
